@@ -114,7 +114,13 @@ WsgiWsdlScenarios ==
   [cfg : [tr : {"wsgi"}, family : {"soap11"}, chunked : BOOLEAN, maxlen : {2, 4}, block : {1}],
    req : [kind : {"wsdl", "wsdlerr", "wsdlrw"}, class : {"valid"}, len : {1}, declared : {Absent}],   \* wsdlrw: a `wsdl` listener rewrites the document
    inj : {NoInj}, abort : {NoAbort, 0, 1}]
-WsgiScenarios == WsgiRpcScenarios \cup WsgiWsdlScenarios
+\* HttpRpc as the OUT protocol hands the value of the function through unchanged: a plain number as its text, a generator
+\* of byte strings (res = "gen") as the lazily produced body
+WsgiHttpOutScenarios ==
+  [cfg : [tr : {"wsgi"}, family : {"http"}, chunked : BOOLEAN, maxlen : {4}, block : {1}],
+   req : [kind : {"rpc"}, class : {"valid"}, len : {1}, declared : {Absent}],
+   inj : {i \in WsgiInj : i.fin = "ok"}, abort : {NoAbort, 0, 1}]
+WsgiScenarios == WsgiRpcScenarios \cup WsgiWsdlScenarios \cup WsgiHttpOutScenarios
 
 Scenarios == IF ScenSet = "events" THEN EventScenarios ELSE WsgiScenarios
 
